@@ -64,7 +64,9 @@ IdealOb(op, a, b, p) ==
 
 \* inputs outside the statement: interval of the divisor reaches zero, fractional power of a negative number
 UnspecifiedM(op, a, b, p) ==
-  \/ op = "div" /\ (RIsZero(b.v) \/ (~IsNone(b.e) /\ RLe(RAbs(b.v), b.e)))
+  \* (a divisor whose interval ENDS at zero has no finite worst case; one whose interval crosses zero still owes the
+  \*  first-order uncertainty)
+  \/ op = "div" /\ (RIsZero(b.v) \/ (~IsNone(b.e) /\ RAbs(b.v) = b.e))
   \/ op = "pow" /\ RSign(a.v) < 0 /\ ~RIsInt(p)
   \/ op = "pow" /\ RIsZero(a.v)
 
